@@ -33,6 +33,7 @@ THEOREMS = [
     "O2P.Gate.or_inference_leaves_sound",
     "O2P.Gate.post_flat_or_sound",
     "O2P.Gate.post_flat_or_sound_proj",
+    "O2P.Gate.or_inference_all_sound",
 ]
 
 
@@ -79,6 +80,10 @@ def infer_or_part(ctx: Ctx, quick: bool) -> None:
         sets = [sorted(r.sample(labels, r.randrange(1, len(labels) + 1))) for _ in range(r.choice([1, 2, 3, 5]))] \
             if labels else []
         inputs.append((sets, tree))
+    # the tree on which the recursion is unsound (the example beside or_inference_all_sound): the real function and the
+    # model must agree on it too — +(c, +(X(tau,a), X(tau,b))) becomes +(c, O(a, b))
+    inputs.insert(0, ([["c"], ["a", "c"], ["b", "c"], ["a", "b", "c"]],
+                      ["+", "c", ["+", ["X", None, "a"], ["X", None, "b"]]]))
     ctx.tick("infer_or_inputs", len(inputs))
     lres = pvlib.lean([{"op": "gate.inferor", "sets": s, "tree": t} for s, t in inputs])
     B = 200
@@ -129,6 +134,15 @@ def post_part(ctx: Ctx, items: list[dict[str, Any]], seeds: list[int]) -> None:
                           **({"src": it["tree"]} if it.get("tree") is not None else {})})
             lmeta.append((it, res, rq["hash_seed"]))
     lres = pvlib.lean(lreqs, timeout=3600) if lreqs else []
+    # how many of the real raw trees meet the hypotheses of or_inference_all_sound (names once, wfT, no empty name):
+    # for those the OR-inference stage is covered by the theorem, the others by execution only
+    wres = pvlib.lean([{"op": "gate.wfraw", "sets": q["sets"], "raw": q["raw"]} for q in lreqs]) if lreqs else []
+    for w in wres:
+        if "error" in w:
+            ctx.broken_ties.append(f"model driver: {w['error']}")
+        else:
+            ctx.tick("raw_tree_meets_theorem_hypotheses" if (w["wf"] and w["nd"] and w["names"])
+                     else "raw_tree_outside_theorem_hypotheses_" + ("wf" if not w["wf"] else "names"))
     for (it, res, hs), lr in zip(lmeta, lres):
         ctx.tick("post_raw_trees")
         if "error" in lr:
